@@ -747,7 +747,7 @@ def units_C12(tier, seed):
     for t in (0, 2) if not th else (0, 1, 2):
         ln = 3 if th else 2
         U += unit(f'c12_hist_{ln}_t{t}', H, f'hist_h<{t},{ln},2>()', sites=[11, 12, 14, 90], diff=(t == 0), weight=1000,
-                  cfg={'max_paths': 400000, 'max_traces': 3}, timeout=6000)
+                  cfg={'max_paths': 400000, 'max_traces': 3, 'max_instrs': 600_000_000}, timeout=9000 if th else 6000)
     return U
 
 
